@@ -475,6 +475,22 @@ def _callable(interp, x):
 B["id"] = id
 
 
+@bi("hash")
+@wants_interp
+def _hash(interp, x):
+    if isinstance(x, X.Obj) and isinstance(x.cls, X.RepoClass):
+        h = x.cls.lookup(interp, "__hash__")
+        if h is not None:
+            return interp.call_repo(h, [x], {})
+        return id(x)
+    if is_sym(x):
+        raise Unsupported("hash of a symbolic value")
+    try:
+        return hash(x)
+    except TypeError:
+        raise X.PyRaise(interp.make_exc("TypeError", "unhashable type"))
+
+
 @bi("hasattr")
 @wants_interp
 def _hasattr(interp, o, name):
@@ -1509,6 +1525,11 @@ def _getattr_hook(interp, obj, name):
         if name in ("index", "count"):
             return getattr(obj, name)
     if isinstance(obj, dict):
+        if name == "get":
+            def _dget(k, default=None):
+                kk = interp.dict_key(obj, k)
+                return default if kk is X._MISSING else obj[kk]
+            return _dget
         if name in ("get", "pop", "setdefault", "copy", "clear", "popitem"):
             if name in ("pop", "setdefault", "clear", "popitem"):
                 def mut(*a, _n=name):
